@@ -122,7 +122,7 @@ def build(v: Any, mod) -> Any:
         return getattr(mod, v.enum)[v.member]
     if isinstance(v, VObj):
         cls = getattr(mod, v.cls)
-        kwargs = {k: build(fv, mod) for k, fv in v.fields.items() if fv is not MISSING}
+        kwargs = {k: build(fv, mod) for k, fv in (v.ctor if v.ctor is not None else v.fields).items() if fv is not MISSING}
         if v.kind == "dataclass":
             init_names = {f.name for f in dataclasses.fields(cls) if f.init}
             obj = cls(**{k: x for k, x in kwargs.items() if k in init_names})
